@@ -16,7 +16,7 @@ ID = 'C15'
 
 LAYOUT = ['bigendian', 'fortran', 'negstride', 'sliced']
 CONTAINER = ['maskedarray', 'nddata', 'quantity']
-PRECISION = ['int16', 'int32', 'int64', 'uint16', 'float32']
+PRECISION = ['int16', 'int32', 'int64', 'uint16', 'float32', 'uint8', 'uint32']
 CLASSES = LAYOUT + CONTAINER + PRECISION + ['mixed_units']
 
 RULE = ('one case = one random scene (elliptical Gaussians + noise, structured error and background maps, mask, '
@@ -302,7 +302,7 @@ def _discrete_sig(ep, out):
 
 
 def repr_kind(variant):
-    if variant in ('int16', 'int32', 'int64', 'uint16'):
+    if variant in ('int16', 'int32', 'int64', 'uint16', 'uint8', 'uint32'):
         return 'integer'
     if variant in LAYOUT:
         return 'layout'
@@ -420,11 +420,14 @@ def run_case(case):
     flav = 'stars' if r < (0.5 if variant == 'nddata' else 0.25) else (
         'pedestal' if r < 0.45 and variant not in ('nddata', 'mixed_units') else
         'galaxy' if r < 0.58 and variant not in ('nddata', 'mixed_units', 'quantity') else 'general')
+    if variant == 'uint8' and flav in ('pedestal', 'galaxy'):
+        flav = 'stars' if r < 0.5 else 'general'      # those images need 15 bits; uint8 gets the star-finder scenes instead
     # generic axis (i): overall magnitude of every value-like input (integer-valued scenes of the precision-changing
     # variants stay at scale 1: they must remain exactly representable)
     scale = 1.0 if precision else gen.draw_scale(rng)
     scene = gen.make_scene(rng, flavour='general' if flav in ('pedestal', 'galaxy') else flav, margin=8, integer=precision,
-                           nonneg=(variant == 'uint16'), scale=scale)
+                           nonneg=variant in ('uint16', 'uint8', 'uint32'), scale=scale,
+                           int_max=250 if variant == 'uint8' else None)
     amp = scene['amp']
     if flav == 'pedestal':
         # statistics layer: large pedestal / small scatter / many pixels, integer-valued for every variant
@@ -506,7 +509,20 @@ def run_case(case):
         if r1 is None:
             continue
         s2, o2, tag = apply_variant(ep, gen.unwrap(scene), dict(o1), variant, rng)
+        if variant != 'nddata':
+            # generic axes (vii)/(xi): dtype of the label array; a caller-owned all-False mask where none was passed
+            sd = [None, None, 'int16', 'int64', 'uint8', 'uint32'][int(rng.integers(0, 6))]
+            if sd is not None and isinstance(s2.get('segm'), np.ndarray) and s2['segm'].max() < 250:
+                s2['segm'] = s2['segm'].astype(sd)
+                case.note(f'axis2_label_dtype:{sd}')
+            if 'use_mask' in o2 and not o2['use_mask'] and rng.random() < 0.2 and isinstance(s2.get('mask'), np.ndarray):
+                s2['mask'] = np.zeros(s2['mask'].shape, bool)
+                o2['use_mask'] = True
+                s2['_allfalse_mask'] = s2['mask']
+                case.note('axis2_all_false_mask')
         r2 = _call(case, ep, s2, o2, mech, 'variant')
+        if s2.get('_allfalse_mask') is not None:
+            case.check(not s2['_allfalse_mask'].any(), 'all_false_mask_unmodified', dict(mech))
         if r2 is None:
             continue
         gap_ok = True
